@@ -9,7 +9,7 @@ import warnings
 import numpy as np
 from hypothesis import strategies as st
 
-from vt.core import Violation, call_repo
+from vt.core import Reject, Violation, call_repo
 from vt.oracles import massassign as MA
 
 ID = 'C06'
@@ -59,9 +59,11 @@ def _desc(draw, tier):
     ax = st.tuples(st.sampled_from(AX_KINDS), st.integers(0, 40), st.integers(-2, 2), st.floats(0, 1, exclude_max=True))
     pts = draw(st.lists(st.tuples(ax, ax, ax, st.integers(-8, 8)), min_size=n, max_size=n))
     nthread = draw(st.sampled_from([1, 1, 2, 3, 4]))
-    npart = draw(st.sampled_from([None, None, 1, 2]))
+    npart = draw(st.sampled_from([None, None, 1, 2, 3, 5]))  # odd values are accepted with one thread only
+    if npart in (3, 5) and draw(st.booleans()):
+        nthread = 1
     return dict(kind=kind, shape=shape, box=box, pd=pd, gd=gd, offfrac=offfrac, wk=wk, nthread=nthread, npartition=npart, wrap=draw(st.sampled_from([True, True, False])),
-                coord=draw(st.integers(0, 2)), sort=draw(st.booleans()), pts=[[list(a), list(b), list(c), w] for a, b, c, w in pts],
+                coord=draw(st.integers(0, 2)), sort=draw(st.booleans()), gridlayout=draw(st.sampled_from(['C', 'C', 'C', 'F', 'view'])), pts=[[list(a), list(b), list(c), w] for a, b, c, w in pts],
                 shift=[draw(st.integers(0, 2)), draw(st.integers(-13, 13))], seed=draw(st.integers(0, 2**31 - 1)), getfield=draw(st.booleans()))
 
 
@@ -150,8 +152,22 @@ def nontrivial(d):
 
 def classes(d):
     c = [d['kind'], 'pos=' + d['pd'], 'grid=' + d['gd'], 'weights=' + d['wk'], 'offset=' + ('0' if d['offfrac'] == 0 else 'half' if d['offfrac'] == 0.5 else 'rand'),
-         'cubic' if len(set(d['shape'])) == 1 else ('flat-z' if d['shape'][2] == 1 else 'anisotropic'), 'nthread=%d' % d['nthread'], 'n=0' if not d['pts'] else 'n>0']
+         'cubic' if len(set(d['shape'])) == 1 else ('flat-z' if d['shape'][2] == 1 else 'anisotropic'), 'nthread=%d' % d['nthread'], 'n=0' if not d['pts'] else 'n>0', 'gridlayout=' + d.get('gridlayout', 'C'), 'npartition=' + str(d['npartition'])]
     return c
+
+
+def _alloc(d, shape, gdt, fill=None):
+    """the supplied grid: C-ordered, Fortran-ordered, or the [:, :, :n] view of a padded (n+2) buffer (as used for in-place FFTs)"""
+    lay = d.get('gridlayout', 'C')
+    if lay == 'F':
+        g = np.zeros(shape, dtype=gdt, order='F')
+    elif lay == 'view':
+        g = np.zeros((shape[0], shape[1], shape[2] + 2), dtype=gdt)[:, :, : shape[2]]
+    else:
+        g = np.zeros(shape, dtype=gdt)
+    if fill is not None:
+        g[...] = fill
+    return g
 
 
 def _wrap_ref(pos, box):
@@ -200,8 +216,14 @@ def run_case(d):
     n = len(pos)
     flat = d['kind'] == 'cic' and shape[2] == 1
     # out-of-range positions need wrap (TSC); without wrap everything is in [0,L]
-    grid = np.zeros(shape, dtype=gdt)
-    offset = _deposit(d, pos, w, grid)
+    grid = _alloc(d, shape, gdt)
+    try:
+        offset = _deposit(d, pos, w, grid)
+    except Violation as v:
+        # an explicit npartition > 2 with several threads may be refused (odd, or stripes narrower than 4 cells): C07 judges that rule
+        if v.signature.startswith('raised:ValueError') and d['kind'] == 'tsc' and d['nthread'] > 1 and d['npartition'] not in (None, 1, 2):
+            raise Reject('configuration rejected by tsc_parallel')
+        raise
     pref = _wrap_ref(pos, box) if (d['kind'] == 'tsc' and d['wrap']) else pos.astype(np.float64)
     ref = MA.reference(pref, shape, box, weights=w, offset=offset, kind=d['kind'], flat_z=flat)
     tol = _tol(d, w, n)
@@ -228,7 +250,7 @@ def run_case(d):
         # accumulation into a supplied non-zero grid + additivity over particles
         rng = np.random.Generator(np.random.PCG64(d['seed']))
         base = rng.uniform(-1, 1, size=shape).astype(gdt)
-        g2 = base.copy()
+        g2 = _alloc(d, shape, gdt, fill=base)
         A = np.arange(n) % 2 == 0
         _deposit(d, pos[A], None if w is None else w[A], g2)
         _deposit(d, pos[~A], None if w is None else w[~A], g2)
